@@ -117,6 +117,7 @@ type judgeStats struct {
 	distinct                                                       []string
 	lagged                                                         int           // retries whose nack was applied later than the failure (deferred batch mutation)
 	maxLag                                                         time.Duration // largest such deferral
+	assumptionBroken                                               string
 }
 
 func judge(sp Spec, res Result) ([]Finding, judgeStats) {
@@ -133,6 +134,15 @@ func judge(sp Spec, res Result) ([]Finding, judgeStats) {
 	}
 	if !res.DrainOK {
 		add("drain:timeout", "dispatcher did not drain within 10 virtual minutes")
+	}
+	for _, m := range sp.Msgs {
+		for _, s := range res.Logs[m.ID] {
+			if s.ActErr != "" {
+				// "the attempt bound assumes lease mutations on the store succeed": nothing is claimed about this history
+				js.assumptionBroken = fmt.Sprintf("message %s attempt %d: %s failed: %s", m.ID, s.Attempt, s.Action, s.ActErr)
+				return nil, js
+			}
+		}
 	}
 	tcfg := map[string]refCfg{}
 	for _, t := range sp.Targets {
@@ -166,10 +176,6 @@ func judge(sp Spec, res Result) ([]Finding, judgeStats) {
 			}
 			ctx := fmt.Sprintf("message %s send #%d: answer %s at attempt %d (retry.max %d) settled as %q", m.ID, i+1, s.Beh, s.Attempt, rc.Max, got)
 			js.distinct = append(js.distinct, fmt.Sprintf("%s:%s:%s:%s", sp.Part, in, within, got))
-			if s.ActErr != "" {
-				add("assumption:lease-mutation-failed", "%s; the lease mutation failed: %s", ctx, s.ActErr)
-				continue
-			}
 			if s.Delivers != 1 {
 				add("sends:twice-per-lease", "%s; %d deliveries under one lease", ctx, s.Delivers)
 			}
@@ -347,6 +353,9 @@ type checker struct {
 	reported map[string]bool
 	samples  map[string]int
 	maxLag   time.Duration
+
+	unanswered  bool // a jitter draw did not go through the harness-answered rand.Float64
+	assumptions int  // histories in which a lease mutation failed (outside the statement's assumption)
 }
 
 // sample keeps at most n examples per part so that the six evidence samples cover all parts.
@@ -380,6 +389,15 @@ func (c *checker) run(sp Spec) Result {
 	}
 	finds, js := judge(sp, res)
 	r := c.r
+	if js.assumptionBroken != "" {
+		r.Add("histories_outside_assumption_lease_mutation_failed", 1)
+		if c.assumptions == 0 {
+			fmt.Printf("ASSUMPTION-BROKEN property=C06 part=%s %s (history not judged)\n", sp.Part, js.assumptionBroken)
+			r.NotExhaustive("a lease mutation failed on the store: histories outside the statement's assumption were not judged")
+		}
+		c.assumptions++
+		return res
+	}
 	r.Add("evaluations", 1)
 	r.Add(sp.Part+"_histories", 1)
 	r.Add("sends_judged", int64(js.sends))
@@ -558,9 +576,15 @@ func (c *checker) partB() {
 							sp := Spec{Part: "b", Store: store, Targets: []Tgt{tg}, Conc: 1, U: u, StopAfter: stop, MaxPerLife: 1000,
 								Msgs: []Msg{{ID: "m", Target: tg.URL(), Script: []Beh{st(503)}}}}
 							res := c.run(sp)
-							if j != "0" && res.Draws == 0 && stop > 1 && res.Infra == "" {
-								c.capped = true
-								r.NotExhaustive("the jitter draw did not go through rand.Float64: the harness could not answer it")
+							retries := 0
+							for _, s := range res.Logs["m"] {
+								if s.Action == "nack" {
+									retries++
+								}
+							}
+							if j != "0" && retries > 0 && res.Draws == 0 && !c.unanswered {
+								c.unanswered = true
+								r.NotExhaustive("a retry with jitter > 0 was scheduled without a rand.Float64 draw: the harness could not answer the jitter source")
 							}
 							r.Add("b_jitter_draws_answered", int64(res.Draws))
 							if mx == "8" && base == "2s" && cp == "2m" && j == "0.2" {
@@ -664,6 +688,8 @@ func (c *checker) partC() {
 		{"memory-noret", small, []int{1, 2}, []float64{0}},
 		{"sqlite", small, []int{1, 2}, []float64{0}},
 		{"sqlite-noret", small, []int{1}, []float64{u1}},
+		{"sqlite-nobatch", small, []int{1}, []float64{0}},
+		{"memory-batchfail", small, []int{1, 2}, []float64{0}},
 	}
 	if r.Thorough() {
 		jobs = []job{
@@ -673,6 +699,8 @@ func (c *checker) partC() {
 			{"sqlite", large, []int{1, 2}, []float64{0}},
 			{"sqlite", small, []int{3}, []float64{0.5}},
 			{"sqlite-noret", small, []int{1, 2}, []float64{u1}},
+			{"sqlite-nobatch", small, []int{1, 2}, []float64{0}},
+			{"memory-batchfail", large, []int{1, 2}, []float64{0}},
 		}
 	}
 	tgt := func(path string, max int) Tgt {
